@@ -38,3 +38,16 @@ func init() {
 		},
 	})
 }
+
+func init() {
+	register(&propSpec{
+		ID: "C11", Level: "exploration",
+		QuickRuns: 4000, QuickSecs: 120, ThorRuns: 400000, ThorSecs: 1500,
+		Rule: "one evaluation = one seeded simulated run: a generated server script (1-3 routes whose handlers are compositions of labelled feature blocks: double reads of $_GET/$_POST/$_COOKIE/$_SERVER/$_REQUEST and of the same data through the request object with a gate in between, loops, arrays, objects, method recursion to depth 1-150, closures, helper functions, request attributes; 0-2 middlewares; optional onError) serves 2-8 (thorough: up to 64) in-flight requests with distinct parameters, each client a task on the real ServeMux, interleaved by the seeded scheduler; every response is compared with the response of the same request served alone on a second fresh VM. Non-trivial = more context switches than requests; distinct = distinct hash of (context-switch sequence, all responses).",
+		Assume: []string{
+			"handlers are pure functions of the request by construction; the generator self-check serves every request alone twice and discards the case if the two differ",
+			"preemption is statement-granular",
+			"route_dispatch.go (annotation-registered controllers) is not exercised: it needs the container/annotation boot path",
+		},
+	})
+}
